@@ -44,6 +44,7 @@ def variant_names(pat, enum):
 
 
 def run(F, R, tier):
+    _round6(F, R)
     # ---------------- C10-a ------------------------------------------------
     tf = F.body(T + "transform_fn")
     clears = [n for n in tf["_nodes"] if n.get("k") == "MethodCall" and n["name"] == "clear" and field_of(n["recv"]) == "stmts"]
@@ -398,3 +399,29 @@ def run(F, R, tier):
             R.ob("C10-f", "missing `%s` in %s leads to inference, a leavable initialiser or a diagnostic" % (r["field"], b["path"].split("::")[-1]), has,
                  "the branch taken when `%s` is missing contains no path to mark_diagnostic: an un-annotated declaration would be emitted without a type and without a diagnostic" % expr_text(r), where(n))
     R.floor("C10-f missing-type tests", n_tests, 3)
+
+
+def _round6(F, R):
+    # C10-a (arrows): with an explicit return type the arrow's body -- block *or*
+    # expression -- is replaced on every path
+    ta = [b for b in F.bodies if b["path"].endswith("FastCheckTransformer::transform_arrow")]
+    if not R.ob("C10-a", "transform_arrow found", len(ta) == 1, "transform_arrow not found"):
+        return
+    ta = ta[0]
+    n_reg = 0
+    for fr in [n for n in ta["_nodes"] if n.get("k") == "Field" and n["field"] == "return_type" and (n.get("adt") or "").endswith("ArrowExpr")]:
+        for binds, region in matched_regions(fr):
+            if not region:
+                continue
+            n_reg += 1
+
+            def is_body_write(x):
+                return x.get("k") == "Assign" and any(y.get("k") == "Field" and y["field"] == "body" for y in walk(x["l"])) and peel(x["l"]).get("k") == "Field"
+            bad = []
+            for r_ in region[:1]:
+                b_, _ = must_pass(F, r_, is_body_write, exit_kinds=("fallthrough", "return"))
+                bad += b_
+            R.ob("C10-a", "an arrow function with an explicit return type has its body replaced on every path", not bad,
+                 "a path through transform_arrow keeps the original body although the return type is explicit (e.g. only a block body is emptied): `(v: string): void => sideEffect(v)` is emitted with its executable expression",
+                 where(bad[0][1]) if bad else "", key="C10|C10-a|arrow-body-kept")
+    R.floor("C10-a explicit-return-type branch of transform_arrow", n_reg, 1)
